@@ -4,7 +4,7 @@ import vlib
 from vlib import Corr, Search, Failure
 
 ID = 'C23'
-LEVEL = 'other'
+LEVEL = 'proof'
 PROPS = ['Props/C23.v']
 from py2coq import containsorder
 GEN = [('Gen/ContainsOrder.v', containsorder.generate)]
@@ -20,6 +20,9 @@ EXPLANATION = ('Two parts. (1) A Coq 8.16.1 proof, closed under the global conte
                'SetInstance.__contains__ read from the source on every run (C23_contains_after_add / _remove). '
                'The rest is differential testing with a seeded generator; the level claimed is therefore "other", not "proof".')
 TRUSTED = [
+    'hand models Model/C23Load.v (Set.load / load(obj, items) / batch / flush / count / is_empty / __contains__ / add / remove on one owner\'s many-to-many '
+    'SetData) and Model/C23Scalar.v; the former tied on every run to the real SetData fields after each step of generated histories (invariant as a boolean, '
+    'result, next state), the latter only through the differential runs',
     'tools/py2coq/containsorder.py (ast scan of the early-exit checks of SetInstance.__contains__, fail-closed) and the hand model Model/C23SetData.v of SetData / add / remove',
     'hand-written model Model/C23Batch.v of construct_batchload_criteria_list and of the meaning of EQ / IN / row-value IN / OR-of-ANDs on non-NULL integer keys',
     'implementation driver tools/c23_driver.py (five regimes as separate Database objects over identical data; SELECT counts via sqlite3 trace callback)',
@@ -242,7 +245,7 @@ def run_all(ctx, n):
     if n not in _cache:
         progs = programs_for(ctx, n)
         _cache[n] = (progs, vlib.run_impl('c23_driver.py', {'criteria': shapes(), 'sql': sql_cases(ctx), 'programs': progs,
-                                                            'colls': coll_histories(ctx, max(60, n // 4))}, timeout=1500))
+                                                            'colls': coll_histories(ctx, max(60, n // 8))}, timeout=1500))
     return _cache[n]
 
 
@@ -262,7 +265,7 @@ HEADER = ('Require Import PonyV.Base.PyBase PonyV.Model.C23Batch PonyV.Model.C23
           'Open Scope nat_scope.\n')
 
 
-def run_bools(ctx, exprs, chunk=400):
+def run_bools(ctx, exprs, chunk=200):
     chunks = []
     for i in range(0, len(exprs), chunk):
         part = exprs[i:i + chunk]
@@ -298,7 +301,7 @@ def correspondence(ctx):
                                                                                 'true' if row in got else 'false'))
             meta.append(('sql-semantics', [nc, keys, row, rvs, st], got)); dist['sql_semantics_rows'] += 1
     dist['setdata_steps'] = 0
-    for h, steps in zip(coll_histories(ctx, max(60, ctx.scale(500, 5000) // 4)), res['colls']):
+    for h, steps in zip(coll_histories(ctx, max(60, ctx.scale(500, 5000) // 8)), res['colls']):
         for st, e in coll_exprs(h, steps):
             if e is None:
                 disagreements.append({'what': 'collection operation raised', 'input': {'history': h, 'op': st['op']}, 'impl': st['result']}); continue
@@ -361,12 +364,18 @@ def replay(ctx, data):
     return Failure(j[0], j[1], data)
 
 
-LEVEL_TEXT = ('Partial by design. Machine-checked (Coq 8.16.1, closed) lemma C23_batch_criteria: the WHERE criteria of construct_batchload_criteria_list select '
-              'exactly the rows whose key is in the batch, for all column counts, batch sizes, offsets and both syntaxes; its hand model is tied to the real '
-              'function structurally and its SQL reading is validated on SQLite. The property itself (same observations under every loading strategy) is '
-              'checked differentially: generated programs under five regimes (default, all-lazy, prefetch everything, nplus1_threshold 0 and 10**9) must '
-              'observe identical values, related objects and collection contents.')
-LEVEL_NOTE = ('No refinement proof of Set.load / prefetch_load_all / _fetch_objects / seeds / lazy loading: that part is seeded differential testing on SQLite only. '
-              'Level "other": a proof of one pure lemma plus differential evidence, not a proof of the property.')
+LEVEL_TEXT = ('Machine-checked proof (Coq 8.16.1, closed) of the collection core of the loading machinery over a hand model tied to the real SetData: for a '
+              'many-to-many collection of one owner, every loading path (whole-collection Set.load = what each member of an nplus1 batch or of '
+              'prefetch_load_all receives, with its OWN count; load of just the asked items; flush) keeps the SetData consistent with the link rows and '
+              'leaves the abstract collection (rows minus pending removals plus pending additions) unchanged, and iteration, len, count, contains and '
+              'is_empty are functions of that abstract collection only, so they agree whichever paths ran (C23_collection_path_independent); add / remove '
+              'change it by exactly the item. Also proved: the batch WHERE criteria select exactly the batch keys (C23_batch_criteria), membership after '
+              'in-session add/remove for the check order read from the source, and that a scalar read returns the written or the database value after any '
+              'row merges, lazy or not (C23_scalar_read). The statement over whole programs (all entities, one-to-many collections, seeds, prefetch '
+              'traversal) is checked differentially under five regimes.')
+LEVEL_NOTE = ('Proved over hand models (Model/C23Load.v, C23SetData.v, C23Scalar.v, C23Batch.v) for ONE owner and its many-to-many collection without concurrent '
+              'writers; the tie is vm_compute correspondence: the model invariant holds on every recorded real SetData, every own-side operation reproduces the '
+              'recorded result and next SetData (~800 steps quick, ~8000 thorough), the criteria AST equals the real one. One-to-many collections, the reverse-side '
+              'bookkeeping (db_reverse_add), seeds and prefetch traversal order are covered only by the five-regime differential runs on SQLite.')
 TECHNIQUE = 'Coq proof of the pure batch-criteria lemma (hand model, vm_compute structural tie, SQLite semantic validation) + five-regime differential execution of generated programs'
 DESIGN_REF = 'DESIGN.md section 5, C23'
